@@ -216,7 +216,7 @@ def run_part(chk, tier):
         if c["o"] in ("alpha", "random"):
             # every 256 bit widths are swept across the inputs; each input also meets the boundary widths
             ls = hybrid_lines(cid, bs, i)
-            if thorough or i % 2 == 0 or c["o"] == "random":
+            if (thorough and (len(bs) <= 3 or i % 4 == 0)) or (not thorough and i % 2 == 0) or c["o"] == "random":
                 ls += other_lines(cid, bs, i) + bitunpack_lines(cid, bs, i)
         else:
             ls = seed_family_lines(cid, c, i)
